@@ -96,3 +96,30 @@ From Bio.Proofs Require SrcGenProofs.
 Theorem C13_iton_is_source : forall i, Z.of_N (Bio.Model.Seq.iton i) = SrcGen.src_sequtil_Iton i.
 Proof. exact SrcGenProofs.iton_is_source. Qed.
 Print Assumptions C13_iton_is_source.
+
+(* ---- tie to the Go source by translation of whole function bodies (gen/ImpGen.v) -------- *)
+From Bio.gen Require ImpGen.
+From Bio.Model Require GoSem.
+From Bio.Proofs Require ImpProofs ImpProofsB.
+
+Theorem C13_to2bit_is_source : forall dst src, ImpProofs.all_bytes src ->
+  ImpGen.imp_sequtil_DNATo2Bit dst src = ImpProofs.of_outcome (to2bit dst src).
+Proof. exact ImpProofsB.imp_DNATo2Bit. Qed.
+Print Assumptions C13_to2bit_is_source.
+
+Theorem C13_from2bit_is_source : forall dst src, ImpProofs.all_bytes src ->
+  ImpGen.imp_sequtil_DNAFrom2Bit dst src = ImpProofs.of_outcome (from2bit dst src).
+Proof. exact ImpProofs.imp_DNAFrom2Bit. Qed.
+Print Assumptions C13_from2bit_is_source.
+
+Theorem C13_ntoi_is_source : forall b, ImpProofs.is_byte b ->
+  ImpGen.imp_sequtil_Ntoi b = GoSem.Ret (ntoi b).
+Proof. exact ImpProofs.imp_Ntoi. Qed.
+Print Assumptions C13_ntoi_is_source.
+
+Example C13_source_example :
+  ImpGen.imp_sequtil_DNATo2Bit [7] (bs "acGTt") = GoSem.Ret [7; 27; 192]
+  /\ ImpGen.imp_sequtil_DNATo2Bit [] (bs "ACNT") = GoSem.Panics
+  /\ ImpGen.imp_sequtil_DNAFrom2Bit [] [27; 192] = GoSem.Ret (bs "ACGTTAAA")
+  /\ ImpProofs.all_bytes (bs "acGTt").
+Proof. vm_compute. repeat split; repeat constructor. Qed.
